@@ -68,6 +68,9 @@ Step ==
 TSpec == TInit /\ [][Step]_tvars
 Report(name, ok, why) == ok \/ PrintT(<<"REPORT", name, scn, l - 1, why>>)
 Verdict_C04 == Report("Inv_C04chain", bad04 = {}, bad04)
+(* C02 end to end: with every task polled only when woken, nothing is left pending once nothing can wake the chain *)
+Stuck == bad04 \cap {"a handler or the head call is still alive at quiescence"}
+Verdict_C02 == Report("Inv_C02chain", Stuck = {}, Stuck)
 Verdict_C07 == Report("Inv_C07chain", bad07 = {}, bad07)
 Verdict_C18 == Report("Inv_C18chain", bad18 = {}, bad18)
 Verdict_All == Verdict_C04 /\ Verdict_C07 /\ Verdict_C18
